@@ -183,42 +183,94 @@ func (s *ScanSpec) advancingBlocks(f *ssa.Function, must map[*ssa.Function]bool,
 	return out
 }
 
-// LoopAtEOF checks rule (ii): under the sticky end-of-input assumption no path
-// from the loop header returns to it. It returns the blocks of a cycle's
-// offending back edge source, or nil.
+// LoopAtEOF checks rule (ii): under the sticky end-of-input assumption the loop
+// cannot keep running. States are (predecessor, block) pairs so that a loop
+// condition held in a variable (`for more := true; more; more = tok == COMMA`)
+// is seen as what it is on the way it was reached; the loop fails when the
+// state graph inside the loop, pruned by the branch atoms decided at end of
+// input, has a cycle reachable from the header. It returns a block on such a
+// cycle, or nil.
 func (s *ScanSpec) LoopAtEOF(l *Loop) *ssa.BasicBlock {
-	skip := func(b *ssa.BasicBlock, i int) bool {
-		if !l.Blocks[b.Succs[i]] {
-			return true // leaving the loop is fine; do not follow
+	type state struct{ pred, blk *ssa.BasicBlock }
+	succs := func(st state) []state {
+		b := st.blk
+		var out []state
+		if len(b.Succs) == 0 {
+			return nil
 		}
-		if len(b.Instrs) == 0 {
-			return false
+		taken := -1 // -1: both
+		if iff, ok := b.Instrs[len(b.Instrs)-1].(*ssa.If); ok && len(b.Succs) == 2 {
+			cond := ssa.Value(iff.Cond)
+			pos := true
+			for i := 0; i < 4; i++ {
+				inner, p := StripNot(cond)
+				if !p {
+					pos = !pos
+				}
+				cond = inner
+				if phi, isPhi := cond.(*ssa.Phi); isPhi && phi.Block() == b && st.pred != nil {
+					for j, pb := range b.Preds {
+						if pb == st.pred {
+							cond = phi.Edges[j]
+						}
+					}
+					continue
+				}
+				break
+			}
+			if k, isc := ConstBool(cond); isc {
+				if k == pos {
+					taken = 0
+				} else {
+					taken = 1
+				}
+			} else if val, decided := s.evalPos(cond); decided {
+				if val == pos {
+					taken = 0
+				} else {
+					taken = 1
+				}
+			}
 		}
-		iff, ok := b.Instrs[len(b.Instrs)-1].(*ssa.If)
-		if !ok {
-			return false
+		for i, nx := range b.Succs {
+			if taken >= 0 && i != taken {
+				continue
+			}
+			if !l.Blocks[nx] {
+				continue // leaving the loop
+			}
+			out = append(out, state{b, nx})
 		}
-		val, decided := s.EvalAtEOF(iff.Cond)
-		if !decided {
-			return false
-		}
-		taken := 1
-		if val {
-			taken = 0
-		}
-		return i != taken
+		return out
 	}
-	reach := ReachFromSuccs(l.Header, skip)
-	if !reach[l.Header] {
-		return nil
-	}
-	// find a latch that is reachable
-	for _, lt := range l.Latch {
-		if reach[lt] || lt == l.Header {
-			return lt
+	const (
+		white = 0
+		grey  = 1
+		black = 2
+	)
+	color := map[state]int{}
+	var bad *ssa.BasicBlock
+	var dfs func(st state) bool
+	dfs = func(st state) bool {
+		color[st] = grey
+		for _, nx := range succs(st) {
+			switch color[nx] {
+			case grey:
+				bad = nx.blk
+				return true
+			case white:
+				if dfs(nx) {
+					return true
+				}
+			}
 		}
+		color[st] = black
+		return false
 	}
-	return l.Header
+	if dfs(state{nil, l.Header}) {
+		return bad
+	}
+	return nil
 }
 
 // LoopProgress checks rule (iii): every cycle through the header passes an
